@@ -77,7 +77,13 @@ func getValues(script string, terms []string) []string {
 	out := runZ3(b.String(), 15)
 	lines := strings.SplitN(out, "\n", 2)
 	if len(lines) < 2 || strings.TrimSpace(lines[0]) != "sat" {
+		if os.Getenv("GVC_DEBUG") != "" {
+			fmt.Fprintf(os.Stderr, "getValues: not sat: %s\n", truncate(out, 300))
+		}
 		return nil
+	}
+	if os.Getenv("GVC_DEBUG") != "" {
+		fmt.Fprintf(os.Stderr, "getValues: %s\n", truncate(out, 1500))
 	}
 	// each get-value answer is one s-expression ((term value)); split top-level
 	var vals []string
@@ -394,7 +400,11 @@ func (g *goTr) expr(e *SExpr) (string, bool) {
 		a, ok2 := g.expr(e.Args[1])
 		b, ok3 := g.expr(e.Args[2])
 		// lazy branches: the untaken branch may index out of range
-		return "verifIte(" + c + ", func() any { return " + a + " }, func() any { return " + b + " })", ok1 && ok2 && ok3
+		ty := g.guessType(e.Args[1])
+		if ty == "int" {
+			ty = g.guessType(e.Args[2])
+		}
+		return "func() " + ty + " { if " + c + " { return " + a + " }; return " + b + " }()", ok1 && ok2 && ok3
 	case "field":
 		a, ok := g.expr(e.Args[0])
 		return a + "." + e.Name, ok
@@ -459,6 +469,8 @@ func (g *goTr) expr(e *SExpr) (string, bool) {
 			return "verifAtoiVal(" + as[0] + ")", true
 		case "isnan":
 			return "math.IsNaN(" + as[0] + ")", true
+		case "nl":
+			return "verifNL(" + as[0] + ", " + as[1] + ", " + as[2] + ")", true
 		}
 		if g.specs != nil && g.depth < 12 {
 			if sf := g.specs(name); sf != nil && sf.Body != nil && !sf.Rec && len(sf.Params) == len(as) {
@@ -512,6 +524,18 @@ func verifLastSize(s string, i int) int {
 	_, z := utf8.DecodeLastRuneInString(s[:i])
 	return z
 }
+func verifNL(s string, a, c int) int {
+	if a < 0 {
+		a = 0
+	}
+	if c > len(s) {
+		c = len(s)
+	}
+	if a >= c {
+		return 0
+	}
+	return strings.Count(s[a:c], "\n")
+}
 func verifAtoiOK(s string) bool { _, err := strconv.Atoi(s); return err == nil }
 func verifAtoiVal(s string) int { v, _ := strconv.Atoi(s); return v }
 `
@@ -524,10 +548,41 @@ func (r *Report) tryGoReplay(g *Group, inputs map[string]string, base string, b 
 		return "", false
 	}
 	script := ob.SMT
-	lits, ok := ri.goLiterals(script)
+	flat, assemble, fok := ri.flattenParams(r.eng.ctx)
+	if !fok {
+		fmt.Fprintf(b, "\nreplay: not attempted (parameter types outside the replayable subset)\n")
+		return "", false
+	}
+	// prefer small witnesses: bound string lengths and integer magnitudes first
+	var small []string
+	for i, t := range flat.Types {
+		switch {
+		case isString(t):
+			small = append(small, fmt.Sprintf("(assert (<= (slen %s) 24))", flat.Terms[i]))
+		case isInterface(t):
+			small = append(small, fmt.Sprintf("(assert (<= (slen (vstr %s)) 24))", flat.Terms[i]))
+		}
+	}
+	withSmall := func(s string) string {
+		k := strings.LastIndex(s, "(check-sat)")
+		if k < 0 || len(small) == 0 {
+			return s
+		}
+		return s[:k] + strings.Join(small, "\n") + "\n" + s[k:]
+	}
+	lits, ok := flat.goLiterals(withSmall(script))
+	if !ok {
+		lits, ok = flat.goLiterals(withSmall(stripQuantified(script)))
+		if ok {
+			fmt.Fprintf(b, "\nreplay: inputs come from a candidate model of the quantifier-free relaxation of the VC\n")
+		}
+	}
+	if !ok {
+		lits, ok = flat.goLiterals(script)
+	}
 	if !ok {
 		// candidate model from the quantifier-free relaxation
-		lits, ok = ri.goLiterals(stripQuantified(script))
+		lits, ok = flat.goLiterals(stripQuantified(script))
 		if ok {
 			fmt.Fprintf(b, "\nreplay: inputs come from a candidate model of the quantifier-free relaxation of the VC\n")
 		}
@@ -536,6 +591,7 @@ func (r *Report) tryGoReplay(g *Group, inputs map[string]string, base string, b 
 		fmt.Fprintf(b, "\nreplay: the solvers returned no model (quantified goal or timeout)\n")
 		return "", false
 	}
+	lits = assemble(lits)
 	var src strings.Builder
 	fmt.Fprintf(&src, "// gvc-replay pkgdir=%s run=TestVerifReplay\n// Generated by gvc from the counterexample of obligation %s (%s).\n", ri.PkgDir, g.Name, ob.Desc)
 	fmt.Fprintf(&src, "package %s\n\nimport (\n\t\"math\"\n\t\"strconv\"\n\t\"strings\"\n\t\"testing\"\n\t\"unicode/utf8\"\n)\n\nvar _ = math.MaxInt\nvar _ = utf8.RuneError\nvar _ = strings.Index\nvar _ = strconv.Atoi\n", ri.PkgName)
